@@ -179,3 +179,55 @@ package index
 //@   ensures result == 4294967295 || (bqStart(t) <= result && result < len(t.fileMasks) && (t.masks[t.repos[result]] & t.fileMasks[result]) != 0)
 //@   ensures forall k int :: bqStart(t) <= k && k < result && k < len(t.fileMasks) ==> (t.masks[t.repos[k]] & t.fileMasks[k]) == 0
 //@   assigns nothing
+
+// ---------------------------------------------------------------------------
+// C01: consuming posting-list hits per document
+// ---------------------------------------------------------------------------
+
+// hitFloor: every hit at or below this offset has been discarded from the hit
+// iterator under discussion (ghost; one iterator per contract).
+//@ ghost var hitFloor int
+
+// The hitIterator interface as documented (assumed of every implementation):
+// first() returns a hit that has not been discarded (or MaxUint32), next(limit)
+// discards the hits up to and including limit. Iterator internals are not
+// modelled.
+//@ func index.hitIterator.first()
+//@   ensures 0 <= result && result <= 4294967295 && (result > hitFloor || result == 4294967295)
+//@   assigns nothing
+//@ func index.hitIterator.next(limit)
+//@   ensures hitFloor == max(old(hitFloor), limit)
+//@   assigns hitFloor
+
+// Positioning on a document discards no hit that could be a match in it: only
+// hits before the first position at which the pattern's selected trigram can
+// occur in that document (document start + left padding).
+//@ pure func docStartOf(i *ngramDocIterator, d int) int = ite(d > 0, i.ends[d-1], 0)
+//@ func index.(*ngramDocIterator).prepare
+//@   requires i != nil && i.iter != nil && nextDoc <= len(i.ends)
+//@   ensures hitFloor <= max(old(hitFloor), docStartOf(i, nextDoc) + i.leftPad - 1)
+//@   ensures i.fileIdx == nextDoc
+//@   assigns hitFloor, i.fileIdx
+
+// Collecting the candidates of the current document: each candidate lies
+// inside the document with its padding, hits of later documents are not
+// consumed, and the loop terminates because every round discards the hit it
+// looked at.
+//@ func index.(*ngramDocIterator).candidates
+//@   requires i != nil && i.iter != nil && hitFloor >= -1
+//@   requires forall a int :: 0 <= a && a < len(i.ends) ==> i.ends[a] + i.leftPad < 4294967296 && i.ends[a] + i.rightPad < 4294967296
+//@   requires forall a, b int :: 0 <= a && a <= b && b < len(i.ends) ==> i.ends[a] <= i.ends[b]
+//@   let FS = docStartOf(i, i.fileIdx)
+//@   let FI = i.fileIdx
+//@   loop 1:
+//@     invariant i.fileIdx == FI && FI < len(i.ends) && fileStart == FS && fileEnd == i.ends[FI] && i.iter != nil
+//@     invariant hitFloor <= max(old(hitFloor), i.ends[FI] - 1)
+//@     invariant FS + i.leftPad < 4294967296 && i.ends[FI] + i.rightPad < 4294967296 && FS <= i.ends[FI]
+//@     invariant candidates == nil || fresh(candidates)
+//@     invariant forall k int :: 0 <= k && k < len(candidates) ==> candidates[k] != nil && fresh(candidates[k])
+//@     invariant forall k int :: 0 <= k && k < len(candidates) ==> candidates[k].file == FI
+//@     invariant forall k int :: 0 <= k && k < len(candidates) ==> FS + i.leftPad + candidates[k].runeOffset + i.rightPad <= i.ends[FI]
+//@     decreases i.ends[FI] - hitFloor
+//@   ensures i.fileIdx >= len(i.ends) ==> result == nil
+//@   ensures forall k int :: 0 <= k && k < len(result) ==> result[k] != nil && result[k].file == FI && FS + i.leftPad + result[k].runeOffset + i.rightPad <= i.ends[FI]
+//@   ensures FI < len(i.ends) ==> hitFloor <= max(old(hitFloor), i.ends[FI] - 1)
